@@ -3,6 +3,7 @@ import MidnightZK.Proofs.C18.Bound
 import MidnightZK.Gen.C18Tables
 import MidnightZK.Gen.C18Serde
 import MidnightZK.Proofs.C18.JsonRoundTrip
+import MidnightZK.Proofs.C18.Compare
 /-!
 # C18 — ZKIR: off-circuit evaluation and the compiled circuit agree on every program
 
@@ -709,5 +710,207 @@ theorem toJson_keys_match_source (i : Instr) (p : Program) :
     (match instrToJson i with | .obj kvs => kvs.map (·.1) | _ => []) = Gen.serdeInstrFields.map (fun x => x.2.1) ∧
     (match toJson p with | .obj kvs => kvs.map (·.1) | _ => []) = Gen.serdeProgramFields.map (fun x => x.2.1) := by
   constructor <;> rfl
+
+/-! ## How the in-circuit comparisons are carried out (seeded change C18-4) -/
+
+/-- `is_equal.rs: is_equal_incircuit` on two byte arrays of the same length — one native
+`is_equal` per byte and the conjunction of the bits — returns `true` exactly when the arrays
+are equal, for every length (in particular from 32 bytes on, where one field element no longer
+holds the array). `assert_not_equal_incircuit` on bytes asserts that this bit is `false`. -/
+theorem bytes_is_equal_sound (v w : List Nat) (h : v.length = w.length) :
+    (bytesIsEqualIn v w = true ↔ v = w) ∧ bytesIsEqualCalls v w = v.length := by
+  refine ⟨bytesIsEqualIn_iff v w h, ?_⟩
+  rw [bytesIsEqualCalls_eq_min, h]; omega
+
+example : bytesIsEqualIn [1, 2, 3] [1, 2, 4] = false ∧ bytesIsEqualIn [1, 2, 3] [1, 2, 3] = true ∧
+    bytesIsEqualCalls [1, 2, 3] [1, 2, 4] = 3 := by decide
+
+/-- The in-circuit `IsEqual` of the model on byte arrays IS that per-byte conjunction, and the
+number of native `is_equal` gadget calls the model predicts for it (compared on every run with
+the regions the real synthesis lays out, section `ieq:`) is the number of bytes: a comparison
+through fewer calls (one packed element instead of n bytes) changes an `impl.txt` line. -/
+theorem is_equal_in_bytes_is_bytewise (H : Hashes) (wt : Option Witness) (known : Bool)
+    (ins outs : List String) (v w : List Nat) (g : GOut) (fs : List Nat) (ts : List IrType)
+    (h : opIn H wt known ⟨.isEq, ins, outs⟩ [.bytes v, .bytes w] = .ok (g, fs, ts)) :
+    v.length = w.length ∧ g.outs = [.bool (bytesIsEqualIn v w)] ∧ g.sat = true ∧
+      cmpCalls .isEq (.bytes v) (.bytes w) = (v.length, v.length) ∧
+      cmpCalls .assertNe (.bytes v) (.bytes w) = (v.length, v.length + 1) := by
+  simp only [opIn, comparableIn] at h
+  by_cases hl : v.length = w.length
+  · simp only [hl, if_true, Except.map] at h
+    injection h with h
+    injection h with h1 h2
+    subst h1
+    have hc : bytesIsEqualCalls v w = v.length := (bytes_is_equal_sound v w hl).2
+    refine ⟨hl, ?_, rfl, ?_, ?_⟩
+    · simp [bytesIsEqualIn_eq_beq v w hl]
+    · simp [cmpCalls, hc]
+    · simp [cmpCalls, hc]
+  · simp [hl, Except.map] at h
+
+example : opIn ⟨fun _ => [], fun _ => [], fun _ => 0⟩ none true ⟨.isEq, ["a", "b"], ["c"]⟩
+    [.bytes [1, 2], .bytes [1, 3]] = .ok ({ outs := [.bool false] }, [], []) := by rfl
+
+/-- Comparing two byte arrays through ONE native element each (`assigned_from_le_bytes`, a
+linear combination modulo the native modulus) is unsound from 32 bytes on: for every length
+n ≥ 32 there are two different arrays of n bytes — the little-endian bytes of the modulus
+(padded with zeros) and n zero bytes — that the packed comparison identifies, while the
+per-byte conjunction tells them apart. The harness feeds exactly these pairs (and x, x + k·p)
+to the compiled circuit on every run. -/
+theorem packed_compare_unsound_from_32 (n : Nat) (hn : 32 ≤ n) :
+    ∃ v w : List Nat, v.length = n ∧ w.length = n ∧ BytesWF v ∧ BytesWF w ∧ v ≠ w ∧
+      packedCompare v w = true ∧ bytesIsEqualIn v w = false := by
+  refine ⟨qBytes ++ List.replicate (n - 32) 0, List.replicate n 0, ?_, by simp, ?_, ?_, ?_, ?_, ?_⟩
+  · have : qBytes.length = 32 := by decide
+    simp [this]; omega
+  · intro b hb
+    rcases List.mem_append.mp hb with hb | hb
+    · exact qBytes_wf b hb
+    · rw [(List.mem_replicate.mp hb).2]; omega
+  · intro b hb
+    rw [(List.mem_replicate.mp hb).2]; omega
+  · intro h
+    have h0 : (qBytes ++ List.replicate (n - 32) 0).head? = (List.replicate n 0).head? := by rw [h]
+    have hq : qBytes = 1 :: qBytes.tail := by decide
+    obtain ⟨m, rfl⟩ : ∃ m, n = m + 1 := ⟨n - 1, by omega⟩
+    rw [hq] at h0
+    simp [List.replicate_succ] at h0
+  · simp only [packedCompare, packNative, leBytesToNat_append_zeros, leBytesToNat_zeros,
+      qBytes_value, Nat.mod_self, Nat.zero_mod, beq_self_eq_true]
+  · have hl : (qBytes ++ List.replicate (n - 32) 0).length = (List.replicate n 0).length := by
+      have : qBytes.length = 32 := by decide
+      simp [this]; omega
+    rw [bytesIsEqualIn_eq_beq _ _ hl]
+    have hq : qBytes = 1 :: qBytes.tail := by decide
+    obtain ⟨m, rfl⟩ : ∃ m, n = m + 1 := ⟨n - 1, by omega⟩
+    rw [hq]
+    simp [List.replicate_succ]
+
+example : ∃ v w : List Nat, v.length = 32 ∧ w.length = 32 ∧ BytesWF v ∧ BytesWF w ∧ v ≠ w ∧
+    packedCompare v w = true ∧ bytesIsEqualIn v w = false :=
+  packed_compare_unsound_from_32 32 (by omega)
+
+/-- Up to 31 bytes the packing is injective (256^31 is below the native modulus): there the
+packed comparison and the per-byte one agree — the seeded change is invisible on short arrays,
+which is why the wrap-around pairs start at 32 bytes. -/
+theorem packed_compare_sound_up_to_31 (v w : List Nat) (hl : v.length = w.length)
+    (h31 : v.length ≤ 31) (hv : BytesWF v) (hw : BytesWF w) :
+    packedCompare v w = bytesIsEqualIn v w := by
+  rw [bytesIsEqualIn_eq_beq v w hl]
+  unfold packedCompare
+  rw [packNative_small v hv h31, packNative_small w hw (hl ▸ h31)]
+  by_cases h : v = w
+  · subst h; simp
+  · have hne : leBytesToNat v ≠ leBytesToNat w := fun he => h (leBytesToNat_injective v w hl hv hw he)
+    have h1 : (leBytesToNat v == leBytesToNat w) = false := beq_false_of_ne hne
+    have h2 : (v == w) = false := beq_false_of_ne h
+    rw [h1, h2]
+
+example : packedCompare [255, 255] [255, 254] = false := by decide
+
+/-! ## The chips the compiled circuit configures -/
+
+/-- `zkir.rs: used_chips` switches on every chip some instruction of the program can reach:
+Poseidon / SHA-256 / SHA-512 when the operation occurs, Jubjub when a Jubjub type is loaded or
+built from bytes, and also when a Jubjub point or scalar enters as a CONSTANT (any name that
+`constants.rs` parses as such a constant starts with "Jubjub", so the textual test of
+`used_chips` misses none). The four switches are compared with the real `used_chips` on every
+program of every run (`arch:` section). -/
+theorem used_chips_cover_program (p : Program) (i : Instr) (hi : i ∈ p) :
+    (i.op = .poseidon → (usedChips p).2.1 = true) ∧
+    (i.op = .sha256 → (usedChips p).2.2.1 = true) ∧
+    (i.op = .sha512 → (usedChips p).2.2.2 = true) ∧
+    (∀ t, (i.op = .load t ∨ i.op = .fromBytes t) → (t = .point ∨ t = .scalar) →
+      (usedChips p).1 = true) ∧
+    (∀ name v, name ∈ i.ins → parseConst name = some v → (v.type = .point ∨ v.type = .scalar) →
+      (usedChips p).1 = true) := by
+  refine ⟨?_, ?_, ?_, ?_, ?_⟩
+  · intro h
+    simp only [usedChips, List.any_eq_true]
+    exact ⟨i, hi, by simp [h]⟩
+  · intro h
+    simp only [usedChips, List.any_eq_true]
+    exact ⟨i, hi, by simp [h]⟩
+  · intro h
+    simp only [usedChips, List.any_eq_true]
+    exact ⟨i, hi, by simp [h]⟩
+  · intro t ht hty
+    simp only [usedChips, Bool.or_eq_true, List.any_eq_true]
+    left
+    refine ⟨i, hi, ?_⟩
+    rcases ht with ht | ht <;> rcases hty with rfl | rfl <;> simp [ht]
+  · intro name v hn hc hv
+    simp only [usedChips, Bool.or_eq_true, List.any_eq_true]
+    right
+    exact ⟨i, hi, name, hn, parseConst_jubjub_prefix name v hc hv⟩
+
+example : usedChips [⟨.publish, ["Jubjub:GENERATOR"], []⟩] = (true, false, false, false) ∧
+    usedChips [⟨.load .native, [], ["x"]⟩, ⟨.poseidon, ["x"], ["h"]⟩] = (false, true, false, false) := by
+  decide
+
+/-- The `ieq:` line of the programs `Load Bytes(n) v w; <comparison> v w`, for EVERY n: the
+in-circuit `IsEqual` lays out n native `is_equal` calls, `AssertNotEqual` the same n plus one
+assertion on the resulting bit, `AssertEqual` n copy assertions and no `is_equal`. The harness
+measures these numbers on the real synthesis for n ∈ {0, 1, 2, 31, 32, 33, 64} (and whatever the
+random programs contain) on every run. -/
+theorem compare_bytes_lays_out_one_call_per_byte (H : Hashes) (n : Nat) :
+    cmpTrace H 0 {} [⟨.load (.bytes n), [], ["v", "w"]⟩, ⟨.isEq, ["v", "w"], ["b"]⟩] = [(1, n, n)] ∧
+    cmpTrace H 0 {} [⟨.load (.bytes n), [], ["v", "w"]⟩, ⟨.assertNe, ["v", "w"], []⟩] = [(1, n, n + 1)] ∧
+    cmpTrace H 0 {} [⟨.load (.bytes n), [], ["v", "w"]⟩, ⟨.assertEq, ["v", "w"], []⟩] = [(1, 0, n)] := by
+  refine ⟨?_, ?_, ?_⟩ <;>
+  simp [cmpTrace, stepIn, opIn, mapE, resolveIn, lookup, loadValue, defaultValue, loadCVal,
+    insertMany, comparableIn, Op.isCompareOp, cmpCalls, bytesIsEqualCalls_replicate, Except.map]
+
+/-- The same for `Load BigUint(nb) v w; IsEqual v w` for EVERY width nb ≥ 1: the witness-free
+pass succeeds (both operands are normalized) and `biguint_gadget.rs: is_equal` lays out one
+native `is_equal` per 96-bit limb, ⌈nb / 96⌉ of them. (`nb = 0` is rejected by `Load`.) -/
+theorem compare_biguint_lays_out_one_call_per_limb (H : Hashes) (nb : Nat) (h : nb ≠ 0) :
+    cmpTrace H 0 {} [⟨.load (.big nb), [], ["v", "w"]⟩, ⟨.isEq, ["v", "w"], ["b"]⟩]
+      = [(1, divCeil nb LOG2_BASE, divCeil nb LOG2_BASE)] := by
+  have hn := (wellShaped_length _ (boundedShape_wellShaped nb)).2.1
+  simp [cmpTrace, stepIn, opIn, mapE, resolveIn, lookup, loadValue, defaultValue, loadCVal,
+    insertMany, comparableIn, Op.isCompareOp, cmpCalls, Except.map, assignBoundedShape, h,
+    requireNormalized, hn, bigCompareLimbs, boundedShape_length nb h]
+
+example (H : Hashes) : cmpTrace H 0 {} [⟨.load (.big 300), [], ["v", "w"]⟩, ⟨.isEq, ["v", "w"], ["b"]⟩]
+    = [(1, 4, 4)] := compare_biguint_lays_out_one_call_per_limb H 300 (by decide)
+
+/-- The `ieq:` lines of the three comparisons on the remaining types (every hash function):
+Native - one native `is_equal` for `IsEqual`, a dedicated region for `AssertNotEqual`, one copy
+assertion for `AssertEqual`; Bool - no `is_equal` at all; JubjubPoint - one per coordinate;
+JubjubScalar - rejected in-circuit (the recorded typing gap), so the trace stops. -/
+theorem compare_fixed_size_types_layout (H : Hashes) :
+    cmpTrace H 0 {} [⟨.load .native, [], ["v", "w"]⟩, ⟨.isEq, ["v", "w"], ["b"]⟩, ⟨.assertNe, ["v", "w"], []⟩, ⟨.assertEq, ["v", "w"], []⟩]
+      = [(1, 1, 1), (2, 0, 0), (3, 0, 1)] ∧
+    cmpTrace H 0 {} [⟨.load .bool, [], ["v", "w"]⟩, ⟨.isEq, ["v", "w"], ["b"]⟩, ⟨.assertNe, ["v", "w"], []⟩, ⟨.assertEq, ["v", "w"], []⟩]
+      = [(1, 0, 0), (2, 0, 1), (3, 0, 1)] ∧
+    cmpTrace H 0 {} [⟨.load .point, [], ["v", "w"]⟩, ⟨.isEq, ["v", "w"], ["b"]⟩, ⟨.assertNe, ["v", "w"], []⟩, ⟨.assertEq, ["v", "w"], []⟩]
+      = [(1, 2, 2), (2, 2, 3), (3, 0, 2)] ∧
+    cmpTrace H 0 {} [⟨.load .scalar, [], ["v", "w"]⟩, ⟨.isEq, ["v", "w"], ["b"]⟩] = [] := by
+  refine ⟨?_, ?_, ?_, ?_⟩ <;>
+  simp [cmpTrace, stepIn, opIn, mapE, resolveIn, lookup, loadValue, defaultValue, loadCVal,
+    insertMany, comparableIn, Op.isCompareOp, cmpCalls, Except.map, CVal.type]
+
+/-- The arms of the three in-circuit comparisons as they are written in the sources TODAY
+(parsed by the translator on every run): which operand pairs each `match (x, y)` accepts and
+which gadget methods each arm calls, in order. `cmpCalls` / `comparableIn` / `bytesIsEqualIn`
+mirror exactly this table: byte arrays are compared component-wise over `zip` (one
+`assert_equal`, resp. one `is_equal` per byte followed by `and`), `AssertNotEqual` on bytes
+delegates to `is_equal_incircuit` and asserts the bit to be `false`. Deliberately tight: any
+other way of writing an arm (e.g. packing both arrays with `assigned_from_le_bytes` and one
+`is_equal`) breaks this theorem even before the region counts and the wrap-around pairs do. -/
+theorem comparison_arms_match_source :
+    Gen.cmpArms =
+      [("assert_equal", [("Bool,Bool", ["assert_equal"]), ("Bytes,Bytes if", ["iter.zip", "assert_equal"]),
+         ("Native,Native", ["assert_equal"]), ("BigUint,BigUint", ["biguint.assert_equal"]),
+         ("JubjubPoint,JubjubPoint", ["jubjub.assert_equal"])]),
+       ("assert_not_equal", [("Bool,Bool", ["assert_not_equal"]),
+         ("Bytes,Bytes if", ["is_equal_incircuit", "assert_equal_to_fixed"]),
+         ("Native,Native", ["assert_not_equal"]), ("BigUint,BigUint", ["biguint.assert_not_equal"]),
+         ("JubjubPoint,JubjubPoint", ["jubjub.assert_not_equal"])]),
+       ("is_equal", [("Bool,Bool", ["is_equal"]), ("Bytes,Bytes if", ["assign_fixed"]),
+         ("Bytes,Bytes if", ["iter.zip", "is_equal", "and"]), ("Native,Native", ["is_equal"]),
+         ("BigUint,BigUint", ["biguint.is_equal"]), ("JubjubPoint,JubjubPoint", ["jubjub.is_equal"])])] := by
+  decide
 
 end MidnightZK.C18
